@@ -103,42 +103,62 @@ def type_infer(t, *, forbid_internal=True):
         # Var case: if type is not known, try to obtain it from context,
         # otherwise, make a new type.
         if t.is_svar():
+            if t.name in context.ctxt.svars:
+                known = context.ctxt.svars[t.name]
+            elif t.name in incr_sctxt:
+                known = incr_sctxt[t.name]
+            else:
+                known = None
             if t.T is None:
-                if t.name in context.ctxt.svars:
-                    t.T = context.ctxt.svars[t.name]
-                elif t.name in incr_sctxt:
-                    t.T = incr_sctxt[t.name]
-                else:
-                    t.T = new_type()
-                    incr_sctxt[t.name] = t.T
+                if known is None:
+                    known = new_type()
+                    incr_sctxt[t.name] = known
+                t.T = known
+            elif known is None:
+                incr_sctxt[t.name] = t.T
+            elif is_internal_type(known):
+                # An earlier occurrence without annotation gets the same type
+                unify(t.T, known)
             return t.T
 
         elif t.is_var():
+            if t.name in context.ctxt.vars:
+                known = context.ctxt.vars[t.name]
+            elif t.name in incr_ctxt:
+                known = incr_ctxt[t.name]
+            else:
+                known = None
             if t.T is None:
-                if t.name in context.ctxt.vars:
-                    t.T = context.ctxt.vars[t.name]
-                elif t.name in incr_ctxt:
-                    t.T = incr_ctxt[t.name]
-                else:
-                    t.T = new_type()
-                    incr_ctxt[t.name] = t.T
+                if known is None:
+                    known = new_type()
+                    incr_ctxt[t.name] = known
+                t.T = known
+            elif known is None:
+                incr_ctxt[t.name] = t.T
+            elif is_internal_type(known):
+                # An earlier occurrence without annotation gets the same type
+                unify(t.T, known)
             return t.T
 
-        # Const case: if type is not known, obtain it from theory,
-        # replacing arbitrary variables by new types.
+        # Const case: obtain the declared type from the theory, replacing
+        # arbitrary variables by new types. A given type must be an instance.
         elif t.is_const():
+            try:
+                T = theory.thy.get_term_sig(t.name, stvar=True)
+            except theory.TheoryException as e:
+                if t.name in context.ctxt.defs:
+                    T = context.ctxt.defs[t.name]
+                elif t.T is not None:
+                    return t.T
+                else:
+                    raise e
+            tyinst = TyInst()
+            for STv in T.get_stvars():
+                tyinst[STv.name] = new_type()
             if t.T is None:
-                try:
-                    T = theory.thy.get_term_sig(t.name, stvar=True)
-                except theory.TheoryException as e:
-                    if t.name in context.ctxt.defs:
-                        T = context.ctxt.defs[t.name]
-                    else:
-                        raise e
-                tyinst = TyInst()
-                for STv in T.get_stvars():
-                    tyinst[STv.name] = new_type()
                 t.T = T.subst(tyinst)
+            else:
+                unify(t.T, T.subst(tyinst))
             return t.T
 
         # Comb case: recursively infer type of fun and arg, then
